@@ -375,15 +375,17 @@ PROPS["C20"] = dict(
     rule=("case = short history: 1..4 keys, 2..64 callers with arrival offsets in yields, tasks that succeed / fail / panic after 0..3 yields, on current_thread, multi-thread (2/4/16) runtimes and the repository ThreadPool, "
           "half of them with seeded spins / yields at the singleflight hook points; checker: task ran at most once, owner flag <-> own task ran, one owner per flight, result names a task of the same key with the matching outcome "
           "(value / error text / panic notification), no caller joins a flight whose owning call had returned before its call started, no internal-BUG variant, no waiter left pending after the scheduler "
-          "demonstrably ran everything runnable three times; non-trivial = at least one joiner; distinct = (runtime, perturbed, keys, callers / flights / joiners buckets, outcome mix)"),
+          "demonstrably ran everything runnable three times; non-trivial = at least one joiner; distinct = (runtime, perturbed, keys, callers / flights / joiners buckets, outcome mix) In addition single flights of 65535 / 65536 / 65537 / 131072 callers (the width of a 16-bit waiter counter) are held at a gate until every caller has registered, then released: one task execution, every caller answered."),
     assumptions=["cancellation of a calling future is not exercised", "a wall-clock watchdog firing without scheduler evidence is inconclusive, never a violation",
                  "yields at hook points are only injected at existing suspension points; elsewhere the hooks spin the worker thread"],
     jobs=[
         Job("sflight", engine="sflight", workers=(8, 16), cases=(3000, 300000), time_s=(40, 800), **FULL),
+        # flights of 65535 / 65536 / 65537 / 131072 callers on one key (the width of a 16-bit waiter counter), current-thread and 4-worker runtimes
+        Job("sflight-big", engine="sflight", workers=(1, 1), cases=(1, 1), time_s=(300, 300), args={"big-flight": True, "all-sizes": True}, **FULL),
     ],
     gates=dict(evaluations=(20000, 2000000), distinct=(3000, 6000),
                counters={"joiners": (100000, 10000000), "flights": (50000, 5000000), "histories_with_panicking_task": (5000, 500000), "histories_current": (2000, 200000), "histories_threadpool": (2000, 200000),
-                         "hook_points_crossed": (300000, 30000000)}),
+                         "hook_points_crossed": (300000, 30000000), "big_flights_all_callers_answered": (8, 8)}),
 )
 
 PROPS["C17"] = dict(
